@@ -1,5 +1,5 @@
 /-
-C15 bridging lemma: for commands with a leading '/', "covers" in its textual form
+C15 bridging lemmas (covers_iff_segs, join_segs): for commands with a leading '/', "covers" in its textual form
 (prefix + boundary) is the same as "segments of c are a list-prefix of segments of o".
 Pure list statement; no Mathlib needed.
 -/
@@ -79,4 +79,66 @@ theorem covers_iff_segs (tc to : List Char) :
           · rw [hto']; simp [List.append_assoc]
           · rw [hto']; simp [List.append_assoc]
 
+
+/-! ## Join: "joining segments yields the command with those segments appended"
+
+`joinSpec` mirrors the contract-level spec function of the same name in /repo/pkg/command/zz_contracts_verif.go
+(proved there, by the SMT back ends, to be what `Command.Join` returns).  Here: for a command text (leading
+separator, no trailing separator) and segments that are non-empty and separator-free, the segments of the
+joined text are the segments of the command followed by the given ones, and the result is again a command text. -/
+
+/-- one step of `joinSpec` (the Go contract): append segment s to the text a. -/
+def step (a s : List Char) : List Char :=
+  if s = [] then a else if a.length > 1 then a ++ [sep] ++ s else a ++ s
+
+/-- `joinSpec(c, ss, len ss)`: the contract's recursion on n is this left fold read from the right end. -/
+def joinSpec (c : List Char) (ss : List (List Char)) : List Char := ss.foldl step c
+
+theorem joinSpec_snoc (c : List Char) (ss : List (List Char)) (s : List Char) :
+    joinSpec c (ss ++ [s]) = step (joinSpec c ss) s := by
+  simp [joinSpec, List.foldl_append]
+
+/-- a command text: leading separator, and no trailing separator unless it is the bare "/" -/
+def okCmd (a : List Char) : Prop := ∃ t, a = sep :: t ∧ (t = [] ∨ t.getLast? ≠ some sep)
+
+def okSeg (s : List Char) : Prop := s ≠ [] ∧ sep ∉ s
+
+theorem step_ok (a s : List Char) (ha : okCmd a) (hs : okSeg s) :
+    okCmd (step a s) ∧ segs (step a s) = segs a ++ [s] := by
+  obtain ⟨t, rfl, ht⟩ := ha
+  obtain ⟨hne, hmem⟩ := hs
+  have hlast : s.getLast? ≠ some sep := by
+    intro h
+    exact hmem (List.mem_of_getLast? h)
+  unfold step
+  simp only [hne, if_false]
+  by_cases htn : t = []
+  · subst htn
+    simp [segs, hne, List.splitOn_eq_singleton hmem, okCmd]
+    exact hlast
+  · have hlen : (sep :: t).length > 1 := by
+      cases t with
+      | nil => exact absurd rfl htn
+      | cons x xs => simp
+    simp only [hlen, if_true]
+    constructor
+    · refine ⟨t ++ [sep] ++ s, by simp, Or.inr ?_⟩
+      obtain ⟨y, ys, rfl⟩ := List.exists_cons_of_ne_nil hne
+      intro hx
+      apply hlast
+      simpa [List.getLast?_append, List.getLast?_cons_cons] using hx
+    · have : sep :: t ++ [sep] ++ s = sep :: (t ++ sep :: s) := by simp
+      rw [this]
+      simp [segs, htn, List.splitOn_append_cons_self, List.splitOn_eq_singleton hmem]
+
+theorem join_segs (c : List Char) (ss : List (List Char)) (hc : okCmd c) (hss : ∀ s ∈ ss, okSeg s) :
+    okCmd (joinSpec c ss) ∧ segs (joinSpec c ss) = segs c ++ ss := by
+  induction ss generalizing c with
+  | nil => simp [joinSpec, hc]
+  | cons s ss ih =>
+    obtain ⟨h1, h2⟩ := step_ok c s hc (hss s (by simp))
+    have ih' := ih (step c s) h1 (fun x hx => hss x (by simp [hx]))
+    have : joinSpec c (s :: ss) = joinSpec (step c s) ss := by simp [joinSpec]
+    rw [this]
+    exact ⟨ih'.1, by rw [ih'.2, h2]; simp⟩
 end Cmd
